@@ -27,7 +27,23 @@ func runC04(r *Report) {
 				if nilField != "" {
 					edge = NilTestEdge(nilField)
 				}
-				ok := MustPassOrEdge(st, hit, edge)
+				// a teardown step may live in an unexported helper of the package that _background calls
+				// synchronously: the call counts when every path of the helper performs the step
+				deep := func(in ssa.Instruction) bool {
+					if hit(in) {
+						return true
+					}
+					c, isc := in.(*ssa.Call)
+					if !isc {
+						return false
+					}
+					callee := c.Call.StaticCallee()
+					if callee == nil || callee.Blocks == nil || callee.Pkg != bg.Pkg || isExportedName(callee.Name()) || callee == bg {
+						return false
+					}
+					return MustPassOrEdge(Site{callee, callee.Blocks[0], -1, nil}, hit, edge)
+				}
+				ok := MustPassOrEdge(st, deep, edge)
 				why := "after the reader exits, every path of _background must " + desc
 				if nilField != "" {
 					why += " (unless " + nilField[1:] + " is nil)"
@@ -72,28 +88,48 @@ func runC04(r *Report) {
 			}, "")
 			// drain loop: while loadWaits() != 0, entries from NextResultCh are failed and released
 			drain := false
-			for _, b := range bg.Blocks {
-				if !IsLoopHeader(b) {
+			// the drain loop may have been extracted into an unexported helper that _background must pass
+			drainFns := map[*ssa.Function]*ssa.BasicBlock{bg: nil}
+			for _, cs := range Sites(bg, func(in ssa.Instruction) bool { _, ok := in.(*ssa.Call); return ok }) {
+				callee := cs.Call().Common().StaticCallee()
+				if callee == nil || callee.Blocks == nil || callee.Pkg != bg.Pkg || isExportedName(callee.Name()) || callee == bg {
 					continue
 				}
-				iff, ok := b.Instrs[len(b.Instrs)-1].(*ssa.If)
-				if !ok || !strings.Contains(DescDeep(iff.Cond), "loadWaits") {
-					continue
+				if mp, _ := MustPass(st, func(in ssa.Instruction) bool { return in == cs.Instr }); mp {
+					drainFns[callee] = cs.Block
 				}
-				nr, fr := false, false
-				for _, bb := range bg.Blocks {
-					if b.Dominates(bb) && reachesBlock(bb, b) {
-						for _, in := range bb.Instrs {
-							if _, is := CallTo(in, "iface:rueidis.queue.NextResultCh"); is {
-								nr = true
-							}
-							if _, is := CallTo(in, "iface:rueidis.queue.FinishResult"); is {
-								fr = true
+			}
+			for dfn, via := range drainFns {
+				for _, b := range dfn.Blocks {
+					if !IsLoopHeader(b) {
+						continue
+					}
+					iff, ok := b.Instrs[len(b.Instrs)-1].(*ssa.If)
+					if !ok || !strings.Contains(DescDeep(iff.Cond), "loadWaits") {
+						continue
+					}
+					nr, fr := false, false
+					for _, bb := range dfn.Blocks {
+						if b.Dominates(bb) && reachesBlock(bb, b) {
+							for _, in := range bb.Instrs {
+								if _, is := CallTo(in, "iface:rueidis.queue.NextResultCh"); is {
+									nr = true
+								}
+								if _, is := CallTo(in, "iface:rueidis.queue.FinishResult"); is {
+									fr = true
+								}
 							}
 						}
 					}
+					if dfn == bg {
+						drain = drain || (nr && fr && reachesBlock(st.Block, b))
+					} else {
+						// every path of the helper enters the loop header
+						hdr := b
+						mp, _ := MustPassFromEntry(dfn, func(in ssa.Instruction) bool { return in.Block() == hdr })
+						drain = drain || (nr && fr && mp && via != nil)
+					}
 				}
-				drain = nr && fr && reachesBlock(st.Block, b)
 			}
 			r.ObSite("R04a", st, "teardown:drain pending calls", drain, "after the reader exits, _background keeps failing and releasing queue entries while calls are in flight (loadWaits() != 0)")
 		}
